@@ -297,6 +297,10 @@ def py_eval(r, env):
                 index.append(slice(None))
             elif it[0] == "e":
                 index.append(Ellipsis)
+            elif it[0] == "none":
+                index.append(None)
+            elif it[0] == "sl":
+                index.append(slice(it[1], it[2], it[3]))
             elif it[0] == "i":
                 index.append(int(it[1]))
             elif it[0] == "n":
@@ -1151,6 +1155,99 @@ def stream_binary_orders(ctx):
     return cases
 
 
+def run_sugar_declines(ctx):
+    """Surface forms of `x[...]` that the pinned tree only ever DECLINES (raises): Ellipsis mixed with funsor / name
+    indices (TypeError tuple + list in Funsor.__getitem__), `None` in a mixed index and non-trivial slices mixed with
+    funsor indices (NotImplementedError).  A change that makes them succeed must give numpy's x[idx] meaning at every
+    named point — the reference is the pointwise oracle (no funsor syntax is needed).  Gate: raise (counted) or equal."""
+    rng = ctx.rng
+    ctx.extra["declines_on_pinned_tree"] = [
+        "x[i, ..., j] : Ellipsis mixed with funsor/name indices (TypeError: tuple + list in Funsor.__getitem__)",
+        "x[None, i]  : None mixed with funsor/name indices (NotImplementedError TODO)",
+        "x[1:3, i]   : non-trivial slice mixed with funsor/name indices (NotImplementedError TODO)"]
+    recipes = []
+
+    def idx_item(kind, n, tag):
+        if kind == "var":
+            return ("n", tag), [(tag, n)]
+        if kind == "num":
+            return ("r", ("num", rng.randrange(n), n)), []
+        if kind == "int":
+            return ("i", rng.randrange(n)), []
+        own = ("tensor", ((tag + "m", 2),), n, (), np.array([rng.randrange(n) for _ in range(2)], dtype=np.int64))
+        return ("r", own), [(tag + "m", 2)]
+
+    for shape in [(2, 2, 2), (3, 3, 3), (2, 2, 2, 2), (2, 3, 3, 2)]:
+        rank = len(shape)
+        for ins in [(), (("b", 2),)]:
+            full = tuple(s_ for _, s_ in ins) + shape
+            forms = []
+            for kl in ("var", "num", "tens", "int", None):
+                for kr in ("var", "tens", "num", None):
+                    if kl is None and kr is None:
+                        continue
+                    for tail in (0, 1):           # number of `:` after the right index
+                        for lead in (0, 1):       # number of `:` before the left index
+                            forms.append((kl, kr, lead, tail))
+            for kl, kr, lead, tail in forms:
+                if quick_skip(rng, ctx):
+                    continue
+                nl = (1 if kl else 0) + lead
+                nr = (1 if kr else 0) + tail
+                if nl + nr > rank:
+                    continue
+                items, extra = [], []
+                items += [("s",)] * lead
+                if kl:
+                    it, ex = idx_item(kl, shape[lead], "u")
+                    items.append(it); extra += ex
+                items.append(("e",))
+                if kr:
+                    it, ex = idx_item(kr, shape[rank - nr], "v")
+                    items.append(it); extra += ex
+                items += [("s",)] * tail
+                data = np.array([rng.choice([-2, -1, 0, 1, 2, 3, 4, 5]) for _ in range(int(np.prod(full)))],
+                                dtype=np.float64).reshape(full)
+                t = ("tensor", ins, "real", shape, data)
+                recipes.append((("getsugar", t, tuple(items)), sorted(list(ins) + extra)))
+            # the two other declining forms (cheap)
+            data = np.arange(float(np.prod(full))).reshape(full)
+            t = ("tensor", ins, "real", shape, data)
+            recipes.append((("getsugar", t, (("none",), ("n", "u"))), sorted(list(ins) + [("u", shape[0])])))
+            recipes.append((("getsugar", t, (("sl", 0, 2, 1), ("n", "u"))), sorted(list(ins) + [("u", shape[1])])))
+    ctx.count("sugar-declines:enumerated", len(recipes))
+    for recipe, ins in recipes:
+        st, val = evaluate(recipe)
+        if st != "value":
+            ctx.count(f"sugar-declines:declined:{val.split(':')[0]}")
+            ctx.case()
+            continue
+        ctx.count("sugar-declines:SUCCEEDED")
+        try:
+            want = py_table(recipe, ins, {})
+            if not isinstance(val, (Tensor, Number)):
+                ctx.count("sugar-declines:lazy")
+                ctx.case()
+                continue
+            got = ser.impl_values(val, ins)
+            ok = ser.tables_equal(got, want)[0]
+            err = None
+        except (KeyError, ValueError) as e:
+            ok, err, got, want = False, str(e), None, None
+        if not ok:
+            wtab = [(c_[0], [float(x) for x in c_[1]]) for c_ in want] if want else None
+            ctx.fail("input", "C01.sugar-index-ne-numpy", witness=gen_terms.describe(recipe),
+                     expected=("numpy x[idx] at every named point: " + str(wtab))[:600],
+                     got=(err or str([(c_[0], [float(x) for x in c_[1]]) for c_ in got]))[:600],
+                     python=replay_python(recipe, None, wtab, ins))
+            continue
+        ctx.case(sample={"stream": "sugar-declines", "expr": gen_terms.python_of(recipe)[:200]})
+
+
+def quick_skip(rng, ctx):
+    return ctx.tier == "quick" and rng.random() < 0.5
+
+
 def stream_getitem_enum(ctx):
     """getitem at EVERY offset, enumerated: event shapes incl. square ones x tensors with 0-2 named inputs (sizes
     equal to event sizes) x index kind (number, fresh variable, variable that is an input of a sibling, index
@@ -1343,6 +1440,7 @@ def correspond(ctx):
     run_cases(ctx, stream_slice_compose(ctx))
     run_cases(ctx, stream_getitem_enum(ctx))
     run_cases(ctx, stream_binary_orders(ctx))
+    run_sugar_declines(ctx)
     run_phi(ctx, 400 if quick else 8000)
     run_outred(ctx, quick)
     run_named_agg(ctx, quick)
